@@ -280,6 +280,8 @@ type RockDB struct {
 	checkpointDirLock sync.RWMutex
 	hasher64          hash.Hash64
 	hllCache          *hllCache
+	// keys whose cached HyperLogLog becomes obsolete when the current write batch is committed
+	pendingPFCacheDel [][]byte
 	stopping          int32
 	engOpened         int32
 	latestSnapIndex   uint64
@@ -1152,6 +1154,7 @@ func (r *RockDB) MaybeCommitBatch() error {
 	}
 	err := r.rockEng.Write(r.wb)
 	r.wb.Clear()
+	r.applyPendingPFCacheDel(err == nil)
 	return err
 }
 
@@ -1161,14 +1164,32 @@ func (r *RockDB) CommitBatchWrite() error {
 		dbLog.Infof("commit write error: %v", err)
 	}
 	r.wb.Clear()
+	r.applyPendingPFCacheDel(err == nil)
 	atomic.StoreInt32(&r.isBatching, 0)
 	return err
 }
 
 func (r *RockDB) AbortBatch() {
 	r.wb.Clear()
+	r.applyPendingPFCacheDel(false)
 	atomic.StoreInt32(&r.isBatching, 0)
 }
+
+// delPFCacheOnCommit drops the cached HyperLogLog of a key once the write that overwrites the
+// key is committed. Dropping it at once would lose unflushed PFADDs if the write is aborted.
+func (r *RockDB) delPFCacheOnCommit(rawKey []byte) {
+	r.pendingPFCacheDel = append(r.pendingPFCacheDel, append([]byte(nil), rawKey...))
+}
+
+func (r *RockDB) applyPendingPFCacheDel(committed bool) {
+	if committed {
+		for _, k := range r.pendingPFCacheDel {
+			r.hllCache.Del(k)
+		}
+	}
+	r.pendingPFCacheDel = r.pendingPFCacheDel[:0]
+}
+
 
 func IsNeedAbortError(err error) bool {
 	// for the error which will not touch write batch no need abort
